@@ -66,6 +66,15 @@ def utc_anchored(expr: ast.AST) -> Optional[bool]:
     return verdict
 
 
+def _offset_to_z(n: ast.AST) -> Optional[ast.AST]:
+    """The text *n* rewrites when *n* is `<text>.replace('<offset>', 'Z')` (str.replace with two constant strings, the
+    new one being the designator): the UTC offset a rendering ends in is exchanged for `Z`.  None otherwise."""
+    if isinstance(n, ast.Call) and isinstance(n.func, ast.Attribute) and n.func.attr == "replace" and not n.keywords and len(n.args) in (2, 3) \
+            and all(isinstance(a, ast.Constant) and isinstance(a.value, str) for a in n.args[:2]) and n.args[1].value == "Z":
+        return n.func.value
+    return None
+
+
 def z_labelled(fn: ast.AST) -> List[ast.AST]:
     """Expressions in *fn* that attach the UTC designator 'Z' to a time string."""
     out = []
@@ -75,6 +84,8 @@ def z_labelled(fn: ast.AST) -> List[ast.AST]:
         if isinstance(n, ast.JoinedStr) and n.values and isinstance(n.values[-1], ast.Constant) and str(n.values[-1].value).endswith("Z") and any(isinstance(v, ast.FormattedValue) for v in n.values):
             out.append(n)
         if isinstance(n, ast.Call) and call_attr(n) == "strftime" and n.args and isinstance(n.args[0], ast.Constant) and isinstance(n.args[0].value, str) and n.args[0].value.endswith("Z"):
+            out.append(n)
+        if _offset_to_z(n) is not None:  # t.replace('+00:00', 'Z'): the designator takes the place of the offset
             out.append(n)
         parts = joined_parts(n) if isinstance(n, (ast.Call, ast.BinOp)) else None  # '{}Z'.format(t), '%sZ' % (t,), ''.join((t, 'Z'))
         if parts and isinstance(parts[-1], ast.Constant) and isinstance(parts[-1].value, str) and parts[-1].value.endswith("Z") and any(not isinstance(x, ast.Constant) for x in parts) and n not in out:
@@ -1136,14 +1147,22 @@ def z_shape_problem(fn: ast.AST, z: ast.AST) -> Optional[str]:
         texts = [v.value for v in z.values if isinstance(v, ast.FormattedValue)]
     elif joined_parts(z) is not None:
         texts = [x for x in joined_parts(z) if not isinstance(x, ast.Constant)]
+    swapped = _offset_to_z(z)
+    if swapped is not None:
+        texts = [swapped]
     for t in texts:
         iso = _iso_call(expand(fn, t))
         if iso is None:
             continue
         if _timespec(iso) in ("hours", "minutes"):
             return f"isoformat(timespec={_timespec(iso)!r}) renders no seconds: the Z-labelled string is not an RFC 3339 date-time"
-        if _aware_receiver(fn, iso):
+        if swapped is None and _aware_receiver(fn, iso):
             return "isoformat() of an offset-aware datetime already ends in `+00:00`; with the designator Z appended the string is not an RFC 3339 date-time"
+        if swapped is not None and not (_aware_receiver(fn, iso) and z.args[0].value == "+00:00"):
+            return f"`{norm(z)[:60]}` finds no `{z.args[0].value}` to exchange (isoformat() of a naive datetime ends in no offset, that of a UTC-aware one in `+00:00`): the string carries neither offset nor designator and is not an RFC 3339 date-time"
+        if _timespec(iso) == "auto":
+            return ("isoformat() without a timespec renders no fraction when microsecond == 0, so the stamps are not of one width: `..:07Z` is written for ..:07.000000 and `..:07.000001Z` a microsecond later - "
+                    "compared as strings, as the consumers of the stream compare them, the later stamp sorts first (`.` < `Z`), so the stream is not non-decreasing, and the record does not have the documented fixed form; render with an explicit timespec")
     return None
 
 
@@ -1687,6 +1706,22 @@ def _stores_key(fn: ast.AST, key: str, nested: bool = True) -> List[ast.AST]:
     return out
 
 
+def _eager_reads(call: ast.Call) -> Set[str]:
+    """Names whose value is read when *call* is evaluated (its receiver and arguments; what the body of a lambda
+    written there reads later, when it is invoked, is not)."""
+    out: Set[str] = set()
+    todo: List[ast.AST] = [call]
+    while todo:
+        n = todo.pop()
+        if isinstance(n, ast.Lambda):
+            todo += [d for d in n.args.defaults + n.args.kw_defaults if d is not None]  # defaults are evaluated at once
+            continue
+        if isinstance(n, ast.Name) and isinstance(n.ctx, ast.Load):
+            out.add(n.id)
+        todo += list(ast.iter_child_nodes(n))
+    return out
+
+
 class Roles:
     """Where the code that fills each part of a SER lives *in this tree*.
 
@@ -1897,6 +1932,20 @@ class Roles:
             pdef = next((n for n in ast.walk(ex) if isinstance(n, FuncNode) and n is not ex and n.name == prov[0].id), None)
             rv = [n.value for n in walk_no_nested(pdef) if isinstance(n, ast.Return)] if pdef is not None else []
             body = rv[0] if len(rv) == 1 else None
+        # a provider *built* by a call: `factory(collector, pre, context, ..)` whose result is a closure over its
+        # parameters, or `functools.partial(<compute>, ..)`.  The computation is the closure's, written in the terms of
+        # execute() (parameters replaced by the arguments); what the arguments read is read when the provider is
+        # built, not when it is called.
+        self.prov_built_at: Optional[ast.Call] = None
+        self.prov_eager: Set[str] = set()
+        built = prov[0] if prov else None
+        if isinstance(built, ast.Name) and isinstance(_def_table(ex)[0].get(built.id), ast.Call):
+            built = _def_table(ex)[0][built.id]
+        if body is None and isinstance(built, ast.Call):
+            body = self._built_provider(built)
+            if body is not None:
+                self.prov_built_at = built
+                self.prov_eager = _eager_reads(built)
         self.prov_body = body if isinstance(body, ast.Call) else None
         self.collector: Optional[ast.AST] = None  # the local object whose state the delta computation uses
         self.collector_class: Optional[ast.ClassDef] = None
@@ -1938,6 +1987,57 @@ class Roles:
             if t2 is not None:
                 found.append(t2)
         self._set("snapshot", found, "yields the pre-node view", required=False)
+
+    def _built_provider(self, built: ast.Call) -> Optional[ast.AST]:
+        """The call that a provider made by *built* (an expression of execute()) performs when it is invoked, written
+        in the terms of execute(): `functools.partial(f, a, k=b)` performs `f(a, k=b)`; a repo function that only
+        defines a parameterless closure (nested def or lambda) over its own parameters and returns it performs the
+        closure's returned call with every parameter replaced by the argument of *built* (an argument that is itself
+        a parameterless lambda and is called by the closure stands for its body).  None for any other shape."""
+        where = call_name(built) or ""
+        if where in ("functools.partial", "partial") and built.args and not any(isinstance(a, ast.Starred) for a in built.args) and all(k.arg for k in built.keywords):
+            new = ast.Call(func=clone(built.args[0]), args=[clone(a) for a in built.args[1:]], keywords=[clone(k) for k in built.keywords])
+            ast.copy_location(new, built)
+            return ast.fix_missing_locations(new)
+        t = self.callee(self.omod, built)
+        if t is None:
+            return None
+        fac = t[1]
+        params = all_params(fac)
+        if any(isinstance(n, ast.Name) and isinstance(n.ctx, (ast.Store, ast.Del)) and n.id in params for n in ast.walk(fac)):
+            return None  # a parameter is rebound: the closure does not see the argument
+        rets = [n.value for n in walk_no_nested(fac) if isinstance(n, ast.Return)]
+        inner: Optional[ast.AST] = None
+        if len(rets) == 1 and isinstance(rets[0], ast.Lambda) and not all_params(rets[0]):
+            inner = rets[0].body
+        elif len(rets) == 1 and isinstance(rets[0], ast.Name):
+            defs = [n for n in ast.walk(fac) if isinstance(n, FuncNode) and n is not fac and n.name == rets[0].id]
+            if len(defs) == 1 and not all_params(defs[0]) and not any(isinstance(n, (ast.Nonlocal, ast.Global)) for n in ast.walk(defs[0])):
+                rv = [n.value for n in walk_no_nested(defs[0]) if isinstance(n, ast.Return)]
+                inner = expand(defs[0], rv[0]) if len(rv) == 1 else None
+        if not isinstance(inner, ast.Call):
+            return None
+        mapping: Dict[str, ast.AST] = dict(bind_args(built, fac))
+        pp = [a.arg for a in fac.args.posonlyargs + fac.args.args]
+        if pp and pp[0] in ("self", "cls") and isinstance(built.func, ast.Attribute):
+            mapping[pp[0]] = built.func.value
+        if any(isinstance(n, ast.Name) and n.id in params and n.id not in mapping for n in ast.walk(inner)):
+            return None  # a parameter left to its default
+
+        class S(ast.NodeTransformer):
+            def visit_Name(self, n: ast.Name):
+                return clone(mapping[n.id]) if isinstance(n.ctx, ast.Load) and n.id in mapping else n
+
+            def visit_Call(self, n: ast.Call):
+                self.generic_visit(n)
+                if isinstance(n.func, ast.Lambda) and not n.args and not n.keywords and not all_params(n.func):
+                    return n.func.body
+                return n
+
+        new = S().visit(clone(inner))
+        for x in ast.walk(new):
+            ast.copy_location(x, built)
+        return ast.fix_missing_locations(new)
 
     def _class_of_local(self, v: Optional[ast.AST]) -> Optional[Tuple[object, ast.ClassDef]]:
         """The repo class every binding of local *v* of execute() constructs."""
@@ -2662,6 +2762,16 @@ def run(repo: Repo, R: Report) -> None:
     # the collector (receiver of the computation, or the object handed to it) is a repo object every binding of which is a construction
     ok = is_snapshot(pb.get(POST_P)) and A.collector is not None and A.collector_class is not None
     R.check(ok, r_d, ORCH, EXECUTE, "delta = DeltaCollector.compute(<pre-node view>, snapshot(context) at call time)", "the delta is not the diff between the pre-node snapshot and the post-node context", ex.lineno)
+    # which context the provider snapshots: the variable as bound when the provider is *called* (a lambda / nested def of
+    # execute() reads it then) - a provider built by a call (factory returning a closure over its parameters,
+    # functools.partial) holds the object the variable named when it was *built*
+    built = A.prov_built_at
+    if built is None or CTX not in A.prov_eager:
+        R.ok(r_d, ORCH, EXECUTE, "the delta provider reads the context variable when it is called", "", ex.lineno)
+    else:
+        bn = use_node(built)
+        ok = not rebinds or (after_run(bn) and (in_handler(built) or ctx_current(bn)))
+        R.check(ok, r_d, ORCH, EXECUTE, norm(built)[:110], f"the delta provider is built by this call, which reads `{CTX}` at once: the post snapshot is taken of the context object that existed " + ("before the node ran" if not after_run(bn) else "before the context returned by the node was bound") + f", not of the one the node returned (`{CTX}` is rebound from the node's result at line {rebinds[0].line if rebinds else '?'}); a node or executor that hands back another context object gets created_keys / updated_keys of the object it did not return", built.lineno)
     def is_provider_call(c: ast.Call) -> bool:
         """`<hooks>.context_delta_provider()` or a call of a local that names that attribute on every path."""
         if call_attr(c) == "context_delta_provider":
